@@ -315,30 +315,16 @@ class EnumGen:
 
     def enum_attrs(self):
         e = self.e
-        items = []
-        if e.style is not None:
-            items.append('serialize_all = %s' % rust_str(e.style))
-        if e.ci:
-            items.append('ascii_case_insensitive')
-        if e.prefix is not None:
-            items.append('prefix = %s' % rust_str(e.prefix))
-        if e.phf:
-            items.append('use_phf')
-        if e.err:
-            ty, fn, _ = ERR_FORMS[e.extra.get('err_form', 'plain')]
-            items += ['parse_err_ty = %s' % ty, 'parse_err_fn = %s' % fn]
-        if e.cis:
-            items.append('const_into_str')
-        if self.sp != 'strum':
-            items.append('crate = %s' % rust_str(self.sp))
-        out = []
+        ty, fn, _ = ERR_FORMS[e.extra.get('err_form', 'plain')]
+
+        def text(it):
+            k, val = it
+            return {'sa': lambda: 'serialize_all = %s' % rust_str(val), 'ci': lambda: 'ascii_case_insensitive',
+                    'pfx': lambda: 'prefix = %s' % rust_str(val), 'phf': lambda: 'use_phf', 'pty': lambda: 'parse_err_ty = %s' % ty,
+                    'pfn': lambda: 'parse_err_fn = %s' % fn, 'cis': lambda: 'const_into_str',
+                    'crate': lambda: 'crate = %s' % rust_str(val)}[k]()
+        out = ['#[strum(%s)]' % ', '.join(text(it) for it in g) for g in e.strum_groups(self.sp)]
         lay = e.extra.get('eattr_layout', 'one')
-        if lay in ('rev', 'revsplit'):
-            items = list(reversed(items))
-        if items and lay in ('split', 'revsplit'):
-            out += ['#[strum(%s)]' % it for it in items]
-        elif items:
-            out.append('#[strum(%s)]' % ', '.join(items))
         if lay in ('rev', 'revsplit'):
             # the strum attributes after #[repr] and the other attributes
             tail, out = out, []
